@@ -17,7 +17,7 @@ def case_st(draw):
     base = draw(c07.image_case())
     base["muts"] = []
     base["gz"] = 0
-    mode = draw(st.sampled_from(["positive", "positive", "truncate", "bitflip", "notgzip", "empty"]))
+    mode = draw(st.sampled_from(["positive", "positive", "truncate", "bitflip", "notgzip", "empty", "othercompress"]))
     c = {"image": base, "mode": mode,
          "level": draw(st.integers(0, 9)), "members": draw(st.sampled_from([1, 1, 1, 2, 3])),
          "fname": draw(st.sampled_from([None, None, b"disc.ssd", b"x" * 300])),
@@ -40,7 +40,8 @@ class C10(CheckBase):
             "levels 0-9, optional FNAME/FCOMMENT/FEXTRA/FHCRC/MTIME header fields, 1-3 gzip members whose ends are "
             "optionally padded (FEXTRA) onto / next to multiples of the 512- and 1024-byte buffers.  Positive: "
             "stdout and exit status of 2-4 commands on X.gz equal those on X.  Negative: every truncation point of "
-            "the .gz (all when <= 2 KiB, else 100), single-bit flips, a raw image renamed .gz, an empty file; an "
+            "the .gz (all when <= 2 KiB, else 100), single-bit flips, a raw image renamed .gz, an empty file, the same "
+            "image as a zlib (RFC 1950) / raw deflate / bzip2 / xz stream; an "
             "independent inflater (Python zlib, member loop) is the referee: if it rejects the stream dfs must exit "
             "!= 0 with a diagnostic and print nothing; if it still yields the same bytes dfs must behave as for the "
             "intact file.  Non-trivial: compressed size not a multiple of 512, >= 2 members, a non-ssd container, or "
@@ -194,6 +195,21 @@ class C10(CheckBase):
                     variants.append(("bit flip at byte %d of %d" % (p, n), bytes(b)))
             elif mode == "notgzip":
                 variants = [("raw image named .gz", data), ("raw image named .gz (first 300 bytes)", data[:300])]
+            elif mode == "othercompress":
+                # well-formed streams of OTHER compression formats holding the same image: not gzip
+                import bz2
+                import lzma
+                import zlib
+                co = zlib.compressobj(case["level"], zlib.DEFLATED, -15)
+                raw = co.compress(data) + co.flush()
+                variants = [("zlib (RFC 1950) stream, level %d" % case["level"], zlib.compress(data, case["level"])),
+                            ("zlib stream with a 512-byte window", (lambda c: c.compress(data) + c.flush())(
+                                zlib.compressobj(case["level"], zlib.DEFLATED, 9))),
+                            ("raw deflate stream", raw), ("bzip2 file", bz2.compress(data)),
+                            ("xz file", lzma.compress(data)),
+                            ("gzip header followed by a zlib stream", gzdata[:10] + zlib.compress(data)),
+                            ("compress(1) magic + deflate", b"\x1f\x9d\x90" + raw),
+                            ("gzip magic with method 7", b"\x1f\x8b\x07" + gzdata[3:])]
             else:
                 variants = [("empty file", b"")]
             for what, blob in variants:
